@@ -84,13 +84,18 @@ PROPS = {
                                  "'never called concurrently' is decided at Handler level (part R: an unsynchronised reporter must be race-free); a change in compiler.go that bypassed the shared root handler would only be seen through part B's latch/outcome oracles"],
     ),
     "C09": dict(
-        test="TestC09", engine="B", level="exploration", components="compile",
-        quick_checks=500, thorough_checks=30000, thorough_timeout=7200,
+        level="exploration", components="compile",
+        parts=[dict(test="TestC09", engine="B", quick_checks=500, thorough_checks=30000),
+               dict(test="TestC09R", engine="R", quick_checks=150, thorough_checks=5000)],
+        thorough_timeout=7200,
         rule="a case = valid generated workload x per-file input form (source / AST / parser.Result / unlinked FileDescriptorProto) for "
              "one or two concurrent Compile clients sharing the same supplied objects x SourceInfoMode in {none, standard, extra "
              "comments, +option locations} x MaxParallelism x scheduler tape; distinct = distinct (workload, forms, trace hash); "
-             "non-trivial = at least one file is supplied in a non-source form",
-        assumptions=_ASSUME_B + ["source info is compared only for files whose supplied form carries an AST",
+             "non-trivial = at least one file is supplied in a non-source form. Part TestC09R is NOT simulated: 2-3 real, unscheduled concurrent "
+             "Compile calls (different SourceInfoModes) share the same supplied objects (protos carrying source info) under the race "
+             "detector, whose happens-before analysis reports an unsynchronised write to a shared input however the goroutines interleave",
+        assumptions=_ASSUME_B + ["the race-detector part controls no schedule; it is a supplementary oracle for 'can be reused across concurrent compilations' that engine B cannot observe",
+                                 "source info is compared only for files whose supplied form carries an AST",
                                  "mutation of supplied objects is decided by before/after deterministic encodings (ASTs are not snapshotted)"],
     ),
     "C33": dict(
